@@ -1,6 +1,7 @@
 package main
 
 import (
+	"fmt"
 	"go/ast"
 	"go/token"
 	"go/types"
@@ -53,6 +54,159 @@ func (w *World) contextFields() *ctxFields {
 		return nil
 	}
 	return cf
+}
+
+// argSrc says where a constructor's data map / outer link comes from.
+type argSrc struct {
+	kind string // param | recv | freshmap | nil | other
+	idx  int
+}
+
+func (a argSrc) String() string {
+	if a.kind == "param" {
+		return fmt.Sprintf("param#%d", a.idx)
+	}
+	return a.kind
+}
+
+// ctxBuild is the summary of a function that builds a Context: directly by a
+// composite literal or by handing its arguments to another builder.
+type ctxBuild struct {
+	f           *FuncInfo
+	origin      ast.Expr // the literal or the builder call
+	data, outer argSrc
+	newVar      types.Object // local the new context is bound to (nil when returned directly)
+}
+
+func (w *World) classifyCtxArg(f *FuncInfo, e ast.Expr) argSrc {
+	info := f.Pkg.TypesInfo
+	if e == nil {
+		return argSrc{kind: "nil"}
+	}
+	e = unparen(e)
+	if isNilIdent(info, e) {
+		return argSrc{kind: "nil"}
+	}
+	switch a := e.(type) {
+	case *ast.CompositeLit:
+		if len(a.Elts) == 0 && isMapStringIface(info.Types[a].Type) {
+			return argSrc{kind: "freshmap"}
+		}
+	case *ast.CallExpr:
+		if builtinName(info, a) == "make" && isMapStringIface(info.Types[a].Type) && len(a.Args) <= 2 {
+			return argSrc{kind: "freshmap"}
+		}
+	}
+	o := objOf(info, e)
+	if o == nil {
+		return argSrc{kind: "other"}
+	}
+	sig := f.Obj.Type().(*types.Signature)
+	reassigned := false
+	inspectBody(f.Decl.Body, false, func(n ast.Node) bool {
+		if as, ok := n.(*ast.AssignStmt); ok {
+			for _, l := range as.Lhs {
+				if objOf(info, l) == o && as.Tok != token.DEFINE {
+					reassigned = true
+				}
+			}
+		}
+		return true
+	})
+	if reassigned {
+		return argSrc{kind: "other"}
+	}
+	if sig.Recv() != nil && o == sig.Recv() {
+		return argSrc{kind: "recv"}
+	}
+	for i := 0; i < sig.Params().Len(); i++ {
+		if o == sig.Params().At(i) {
+			return argSrc{kind: "param", idx: i}
+		}
+	}
+	return argSrc{kind: "other"}
+}
+
+func (w *World) ctxBuilder(f *FuncInfo, depth int) *ctxBuild {
+	cf := w.contextFields()
+	if cf == nil || f == nil || depth > 4 || f.Rel != "" {
+		return nil
+	}
+	info := f.Pkg.TypesInfo
+	var origins []ast.Expr
+	var subs []*ctxBuild
+	inspectBody(f.Decl.Body, true, func(n ast.Node) bool {
+		switch x := n.(type) {
+		case *ast.CompositeLit:
+			if nt, ok := info.Types[x].Type.(*types.Named); ok && nt.Obj() == cf.typ.Obj() {
+				origins = append(origins, x)
+				subs = append(subs, nil)
+			}
+		case *ast.CallExpr:
+			if g := w.FuncOf(calleeOf(info, x)); g != nil && g.Obj != f.Obj && g.Rel == "" {
+				gs := g.Obj.Type().(*types.Signature)
+				if gs.Results().Len() == 1 && (namedIs(gs.Results().At(0).Type(), modPath, "Context")) {
+					if sub := w.ctxBuilder(g, depth+1); sub != nil {
+						origins = append(origins, x)
+						subs = append(subs, sub)
+					}
+				}
+			}
+		}
+		return true
+	})
+	if len(origins) != 1 {
+		return nil
+	}
+	b := &ctxBuild{f: f, origin: origins[0]}
+	if lit, ok := origins[0].(*ast.CompositeLit); ok {
+		var dv, ov ast.Expr
+		for _, e := range lit.Elts {
+			kv, ok := e.(*ast.KeyValueExpr)
+			if !ok {
+				return nil // positional literal: not read
+			}
+			k, _ := kv.Key.(*ast.Ident)
+			if k == nil {
+				continue
+			}
+			switch info.Uses[k] {
+			case types.Object(cf.data):
+				dv = kv.Value
+			case types.Object(cf.outer):
+				ov = kv.Value
+			}
+		}
+		b.data, b.outer = w.classifyCtxArg(f, dv), w.classifyCtxArg(f, ov)
+	} else {
+		call := origins[0].(*ast.CallExpr)
+		sub := subs[0]
+		through := func(a argSrc) argSrc {
+			switch a.kind {
+			case "param":
+				if a.idx < len(call.Args) {
+					return w.classifyCtxArg(f, call.Args[a.idx])
+				}
+				return argSrc{kind: "other"}
+			case "recv":
+				if sel, ok := unparen(call.Fun).(*ast.SelectorExpr); ok {
+					return w.classifyCtxArg(f, sel.X)
+				}
+				return argSrc{kind: "other"}
+			}
+			return a
+		}
+		b.data, b.outer = through(sub.data), through(sub.outer)
+	}
+	// the local the new context is bound to
+	var node ast.Node = origins[0]
+	if u, ok := w.Parent(node).(*ast.UnaryExpr); ok {
+		node = u
+	}
+	if as, ok := w.Parent(node).(*ast.AssignStmt); ok && len(as.Lhs) == 1 && len(as.Rhs) == 1 {
+		b.newVar = objOf(info, as.Lhs[0])
+	}
+	return b
 }
 
 func ownershipRule(r *Run, rule string) {
@@ -164,6 +318,15 @@ func lookupOrderRule(r *Run, rule string) {
 		switch x := n.(type) {
 		case *ast.AssignStmt:
 			if len(x.Rhs) == 1 {
+				if c, ok := unparen(x.Rhs[0]).(*ast.CallExpr); ok && len(x.Lhs) == 2 {
+					if sel, ok := unparen(c.Fun).(*ast.SelectorExpr); ok && objOf(info, sel.X) == recv && w.localLookupHelper(cf, w.FuncOf(calleeOf(info, c))) && len(c.Args) == 1 {
+						if lookup != nil {
+							r.Bad(rule, f.Name(), "second local lookup "+short(w.Fset, x), w.Pos(x.Pos()), "one local lookup expected")
+						}
+						lookup = x
+						valVar, okVar = objOf(info, x.Lhs[0]), objOf(info, x.Lhs[1])
+					}
+				}
 				if ix, ok := unparen(x.Rhs[0]).(*ast.IndexExpr); ok {
 					if b, fld := fieldOf(info, ix.X); fld == cf.data && objOf(info, b) == recv {
 						if lookup != nil {
@@ -248,6 +411,54 @@ func lookupOrderRule(r *Run, rule string) {
 	}
 }
 
+// localLookupHelper: a Context method (key) (interface{}, bool) that returns
+// exactly the comma-ok lookup of the key in the receiver's own map and does
+// not touch the outer link.
+func (w *World) localLookupHelper(cf *ctxFields, g *FuncInfo) bool {
+	if g == nil || !isMethodOf(g, cf.typ) {
+		return false
+	}
+	sig := g.Obj.Type().(*types.Signature)
+	if sig.Params().Len() != 1 || sig.Results().Len() != 2 || !isBasicKind(sig.Results().At(1).Type(), types.Bool) {
+		return false
+	}
+	info := g.Pkg.TypesInfo
+	var v, ok types.Object
+	n := 0
+	touchesOuter := false
+	inspectBody(g.Decl.Body, false, func(nd ast.Node) bool {
+		switch x := nd.(type) {
+		case *ast.AssignStmt:
+			if len(x.Rhs) == 1 && len(x.Lhs) == 2 {
+				if ix, isIx := unparen(x.Rhs[0]).(*ast.IndexExpr); isIx {
+					if b, fld := fieldOf(info, ix.X); fld == cf.data && objOf(info, b) == sig.Recv() && objOf(info, ix.Index) == sig.Params().At(0) {
+						n++
+						v, ok = objOf(info, x.Lhs[0]), objOf(info, x.Lhs[1])
+					}
+				}
+			}
+		case *ast.SelectorExpr:
+			if _, fld := fieldOf(info, x); fld == cf.outer || fld == cf.embedded {
+				touchesOuter = true
+			}
+		}
+		return true
+	})
+	if n != 1 || touchesOuter || v == nil || ok == nil {
+		return false
+	}
+	rets := returnsIn(g.Decl.Body)
+	if len(rets) == 0 {
+		return false
+	}
+	for _, ret := range rets {
+		if len(ret.Results) != 2 || objOf(info, ret.Results[0]) != v || objOf(info, ret.Results[1]) != ok {
+			return false
+		}
+	}
+	return true
+}
+
 func hasRule(r *Run, rule string) {
 	w := r.W
 	cf := w.contextFields()
@@ -297,32 +508,12 @@ func helperInjectionRule(r *Run, rule string) {
 			continue
 		}
 		info := f.Pkg.TypesInfo
-		// only constructors that contain the literal
-		var lit *ast.CompositeLit
-		inspectBody(f.Decl.Body, false, func(n ast.Node) bool {
-			if cl, ok := n.(*ast.CompositeLit); ok {
-				if nt, ok := info.Types[cl].Type.(*types.Named); ok && nt.Obj() == cf.typ.Obj() {
-					lit = cl
-				}
-			}
-			return true
-		})
-		if lit == nil {
+		// only constructors: functions that build a Context (by literal or through another builder)
+		bld := w.ctxBuilder(f, 0)
+		if bld == nil {
 			continue
 		}
-		var newCtx types.Object
-		inspectBody(f.Decl.Body, false, func(n ast.Node) bool {
-			if as, ok := n.(*ast.AssignStmt); ok && len(as.Rhs) == 1 {
-				e := unparen(as.Rhs[0])
-				if u, ok := e.(*ast.UnaryExpr); ok {
-					e = u.X
-				}
-				if e == ast.Expr(lit) {
-					newCtx = objOf(info, as.Lhs[0])
-				}
-			}
-			return true
-		})
+		newCtx := bld.newVar
 		var outerP *types.Var
 		for i := 0; i < sig.Params().Len(); i++ {
 			if namedIs(sig.Params().At(i).Type(), modPath, "Context") {
